@@ -92,9 +92,11 @@ def _check_events(name, rec, W, directed, case, ctx, fails, ind_rp=None):
 def check(case, ctx):
     name = case["fn"]
     W = np.array(case["W"], dtype=float)
+    order = case.get("order")
     seed = case["seed"]
     fails = []
     fn = getattr(bct, name)
+    ctx.label("layout:" + str(order or "C"))
     directed = name in rewire.DIR
     ctx.label("fn:" + name)
     ctx.label("family:" + case.get("family", "?"))
@@ -104,13 +106,13 @@ def check(case, ctx):
     with rewire.SwapRecorder() as rec:
         if name in rewire.LATMIO:
             D = case.get("D")
-            o = ctx.call(fn, W.copy(), case["itr"], D=(None if D is None else np.array(D, dtype=float)), seed=seed)
+            o = ctx.call(fn, gen.layout(W.copy(), order), case["itr"], D=(None if D is None else np.array(D, dtype=float)), seed=seed)
         elif name == "randomize_graph_partial_und":
-            o = ctx.call(fn, W.copy(), np.array(case["B"], dtype=float), case["maxswap"], seed=seed, timeout=1.5)
+            o = ctx.call(fn, gen.layout(W.copy(), order), np.array(case["B"], dtype=float), case["maxswap"], seed=seed, timeout=1.5)
         elif name == "randomizer_bin_und":
-            o = ctx.call(fn, W.copy(), case["alpha"], seed=seed)
+            o = ctx.call(fn, gen.layout(W.copy(), order), case["alpha"], seed=seed)
         else:
-            o = ctx.call(fn, W.copy(), case["itr"], seed=seed)
+            o = ctx.call(fn, gen.layout(W.copy(), order), case["itr"], seed=seed)
     if o.status == "timeout":
         return fails
     if o.status == "reject":
@@ -225,9 +227,9 @@ def cases(draw, names, nmax):
         W = A.astype(float)
     else:
         W = draw(gen.weights_for(A, draw(st.sampled_from(["bin", "dyadic", "dyadic"])), directed))
-    case = {"fn": name, "W": W, "seed": draw(gen.seeds()), "family": fam}
+    case = {"fn": name, "W": W, "seed": draw(gen.seeds()), "family": fam, "order": draw(st.sampled_from(gen.ORDERS))}
     if name == "randomize_graph_partial_und":
-        case["maxswap"] = draw(st.integers(0, 10))
+        case["maxswap"] = (draw(st.integers(0, 10)) + 3) % 11        # minimal draw -> 3 swaps, not 0
         dens = draw(st.sampled_from([0, 2, 5]))
         vals = draw(st.lists(st.integers(0, 9), min_size=n * (n - 1) // 2, max_size=n * (n - 1) // 2))
         B = np.zeros((n, n))
@@ -238,9 +240,9 @@ def cases(draw, names, nmax):
         if not _swap_feasible(A, B):
             case["maxswap"] = 0      # nothing can be rewired: the routine would search forever (implicit precondition)
     elif name == "randomizer_bin_und":
-        case["alpha"] = draw(st.sampled_from([0.0, 0.3, 0.7, 1.0]))
+        case["alpha"] = draw(st.sampled_from([0.7, 1.0, 0.3, 0.0]))
     else:
-        case["itr"] = draw(st.sampled_from([0, 1, 1, 2, 2, 5]))
+        case["itr"] = draw(st.sampled_from([2, 1, 5, 0, 1, 2]))
         if name in rewire.LATMIO:
             if draw(st.booleans()):
                 vals = draw(st.lists(st.integers(0, 6), min_size=n * (n - 1) // 2, max_size=n * (n - 1) // 2))
